@@ -57,17 +57,17 @@ theorem sim_start (cfg : TagCfg) (hside : Side cfg) (s : St) (hw : Wf s) (t : Na
     by_cases hd : d = 0
     · subst hd
       by_cases h1 : t ∈ cfg.gSelectExit
-      · simp [toGuard, ambiguous, step, Guard.trackStartTag, assert_eq, h1]
+      · simp [toGuard, ambiguous, step, Guard.trackStartTag, h1]
       by_cases h2 : t = cfg.gTemplate
       · subst h2
-        simp [toGuard, ambiguous, step, Guard.trackStartTag, assert_eq, h1, hside]
+        simp [toGuard, ambiguous, step, Guard.trackStartTag, h1, hside]
       by_cases h3 : t = cfg.gScript
       · subst h3; simp [toGuard, ambiguous, step, Guard.trackStartTag, h1, h2]
       by_cases h4 : t ∈ cfg.guardTextSwitch <;>
         simp [toGuard, ambiguous, step, Guard.trackStartTag, assert_eq, h1, h2, h3, h4]
     · by_cases h2 : t = cfg.gTemplate
       · subst h2
-        simp [toGuard, ambiguous, step, Guard.trackStartTag, assert_eq, hd, hside]
+        simp [toGuard, ambiguous, step, Guard.trackStartTag, hd, hside]
       by_cases h4 : t ∈ cfg.guardTextSwitch <;>
         simp [toGuard, ambiguous, step, Guard.trackStartTag, assert_eq, hd, h2, h4]
   · -- frameset
@@ -86,7 +86,7 @@ theorem sim_end (cfg : TagCfg) (s : St) (hw : Wf s) (t : Nat) :
       by_cases h : t = cfg.gSelect <;> simp [toGuard, step, Guard.trackEndTag, h]
     · by_cases h : t = cfg.gTemplate
       · by_cases h1 : d = 1
-        · simp [toGuard, step, Guard.trackEndTag, hd, h, h1]
+        · simp [toGuard, step, Guard.trackEndTag, h, h1]
         · have : d - 1 ≠ 0 := by omega
           simp [toGuard, step, Guard.trackEndTag, hd, h, h1, this]
       · simp [toGuard, step, Guard.trackEndTag, hd, h]
